@@ -300,6 +300,10 @@ func groupC17(n int) {
 			return u(got)
 		})
 		r.Distinct(fmt.Sprintf("rot/%d/%d", rot, idx%64))
+		emit("lowEntropyChunkMask", []string{u(m), i(int64(rot)), i(idx)}, func() string {
+			v, err := protocol.VerifLEChunkMask(m, rot, int(idx))
+			return u(v) + " " + b2s(err != nil)
+		})
 		// where the codec can call it (valid rotation, index >= 0) it is what lowEntropyChunkMask returns
 		if idx >= 0 && protocol.VerifLEValidRotation(rot) {
 			if v, err := protocol.VerifLEChunkMask(m, rot, int(idx)); err != nil || v != got {
